@@ -14,7 +14,7 @@ RULE = ('(sequential part) random name sequences registered through append, attr
         'that differs between two observations, or an Event whose (signal, signal_name) pair disagrees with the final registry is a '
         'violation. distinct_nontrivial = distinct context-switch sequences with >= 2 threads registering')
 CASES = {'quick': 1500, 'thorough': 100000}
-BUDGET = {'quick': 50, 'thorough': 1200}
+BUDGET = {'quick': 50, 'thorough': 300}
 REQUIRE = {'concurrent_runs': 500, 'sequential_ops': 10000, 'concurrent_registrations': 3000}
 ASSUME = ['each scheduled run works on a fresh SignalSource (the registry only grows; opcode-level runs over a large registry are too slow)']
 ANNOUNCE_CASES = True
